@@ -115,11 +115,18 @@ CHECKS["C12"] = dict(
 CHECKS["C13"] = dict(
     text="Theorems (Lean 4): formula_exists (the semantics solves the translation's equation system for every trace and horizon), "
          "formula_definite / del_definite (any two solutions agree), constraint_split (each formula literal has exactly the value "
-         "the trace gives it).  PARTIAL: that this definitional extension leaves the projected stable models unchanged is not a "
-         "theorem here; it is validated by the metamorphic search on the implementation: P vs P + observer projected to P's atoms as "
-         "multisets (duplicates detected), and P's answer sets = disjoint union of those with `:- &tel{f}` and `:- not &tel{f}`, on "
-         "rule programs incl. shifted constraints, head-formula programs, formula constraints, observers sharing sub-formulas, shipped examples.",
-    design="§6 C13", technique="Lean 4 proof (existence and uniqueness of the translation's formula values; partial) + metamorphic search on the implementation")
+         "the trace gives it); observer_cut / observer_conservative (generic answer-set programs, any atom type): adding only choice "
+         "rules on fresh atoms, integrity constraints and negative-body definitions of fresh atoms (`w :- not not t`) to a program never "
+         "invents an answer set of the old atoms, and when the added constraints hold exactly if each fresh atom has the value a "
+         "function of the old atoms gives it, cutting is a bijection of stable models — nothing created, destroyed or duplicated.  "
+         "PARTIAL: the two hypotheses are checked on the implementation, not derived from a model of its clause generation: (H1) "
+         "every backend statement recorded while body formulas are translated is a fresh atom, a choice on one, an external on one or "
+         "an integrity constraint; (H2) the recorded literal values solve the equations in every answer set (L4), also when the "
+         "observer is another spelling of one of the program's own formulas (shared formula objects).  Search: P vs P + observer "
+         "projected to P's atoms as multisets, and P's answer sets = disjoint union of those with `:- &tel{f}` and `:- not &tel{f}`, on "
+         "rule programs incl. shifted constraints, head-formula programs, formula constraints, observers sharing sub-formulas or "
+         "aliasing own formulas, shipped examples.",
+    design="§6 C13", technique="Lean 4 proof (existence and uniqueness of the formula values; conservativity of definitional extensions for stable models; hypotheses checked on recorded backend statements) + metamorphic search on the implementation")
 
 CHECKS["C07"] = dict(
     text="Theorems (Lean 4): tables_agree — the operator tables regenerated from the source on every run (#theory tel body/head "
